@@ -109,7 +109,7 @@ class Bmc15:
         null = pp['auth'] == 0 and le_val(pp['seqb']) == 0 and le_val(pp['sidb']) == 0
         if (netfn, cmd) == (6, 0x38):
             rsp = bytes([0, 1, p['caps'], 0, 0, 0, 0, 0, 0])
-            if self.ph != ('P1',):
+            if self.ph not in (('P1',), ('P2',)):        # P2: retransmission after a lost reply
                 self.flag(2)
             elif not null:
                 self.flag(3)
@@ -123,7 +123,7 @@ class Bmc15:
                 return bytes([0xc7])
             a, user = data[0], data[1:]
             rsp = bytes([0]) + le32(p['tmp']) + p['chal']
-            if self.ph != ('P2',):
+            if self.ph[0] not in ('P2', 'P3'):            # P3: retransmission after a lost reply
                 self.flag(2)
             elif not null:
                 self.flag(3)
@@ -134,7 +134,7 @@ class Bmc15:
             self.ph = ('P3', a)
             return rsp
         if (netfn, cmd) == (6, 0x3a):
-            if self.ph[0] != 'P3':
+            if not (self.ph[0] == 'P3' or (self.ph[0] == 'P4' and self.ph[2] is None)):   # P4/None: retransmission
                 self.flag(2)
                 return bytes([0x81])
             a = self.ph[1]
@@ -445,6 +445,17 @@ def judge(scn, rec):
             if fi < len(lg) and seg['ops'][0][0] == 'est' and dg_step(lg[fi]['dg']) in (0, 1, 2, 3, 4):
                 st = dg_step(lg[fi]['dg'])
                 n_est = len([x for x in lg if dg_step(x['dg']) in (0, 1, 2, 3, 4)])
+                # silence is a failure of the step only when every attempt (retries + 1, the ping: 1) stays unanswered
+                attempts = 1 if st == 0 else cfg['retries'] + 1
+                fatal = faults[str(fi)].startswith('cc:') or all(faults.get(str(fi + k)) == 'timeout' for k in range(attempts))
+                if not fatal:
+                    # the retransmission was answered: the handshake must complete and the session must work
+                    for op, o in zip(seg['ops'], outs):
+                        if o[0] != 0:
+                            return ('%s-raises-%s-after-retransmission' % (op[0], o[2] if len(o) > 2 else o[0]),
+                                    '%s fails with %s although the retransmitted step %d was answered (segment %d)'
+                                    % (op[0], o[2] if len(o) > 2 else o[0], st, k))
+                    continue
                 if outs[0][0] == 0:
                     return ('establish-ignores-failure-step-%d' % st, 'establish_session returned normally although step %d '
                             'got fault %s' % (st, faults[str(fi)]))
@@ -587,6 +598,21 @@ def scenarios(rng, q):
         b = gen_bmc(rng)
         out.append(('retransmit', {'cfg': cfg, 'segments': [{'bmc': b, 'faults': {str(rng.randrange(5, 8)): 'timeout'},
                     'ops': [['est', rnd32(rng)]] + gen_reqs(rng, 4) + [['close']]}]}))
+    # the reply of a handshake step is lost once or twice, the retransmission is answered: the session comes up
+    for step in range(1, 5):
+        for lost in (1, 2):
+            cfg = gen_cfg(rng)
+            cfg['retries'] = rng.choice([lost, lost + 1])
+            out.append(('retransmit-handshake-step-%d' % step, {'cfg': cfg, 'segments': [{
+                'bmc': gen_bmc(rng), 'faults': {str(step + k): 'timeout' for k in range(lost)},
+                'ops': [['est', rnd32(rng)]] + gen_reqs(rng, 2) + [['close']]}]}))
+    # every attempt of a step unanswered (retries 2): establish fails after the retransmissions
+    for step in range(1, 5):
+        cfg = gen_cfg(rng)
+        cfg['retries'] = 2
+        out.append(('silence-all-attempts-step-%d' % step, {'cfg': cfg, 'segments': [
+            {'bmc': gen_bmc(rng), 'faults': {str(step + k): 'timeout' for k in range(3)}, 'ops': [['est', rnd32(rng)]]},
+            {'bmc': gen_bmc(rng), 'ops': [['est', rnd32(rng)]] + gen_reqs(rng, 2) + [['close']]}]}))
     # a fault at each handshake step, then re-establishing on the same objects; close afterwards
     for step in range(5):
         for fault in ('timeout', 'cc:0xc1', 'cc:0x81', 'short', 'long', 'empty'):
@@ -695,7 +721,8 @@ def run(ctx):
     res.histogram = dict(D.hist, datagrams_recorded=ndg)
     res.rule = ('scenarios on one Rmcp + Session object behind a scripted socket: all 32 capability subsets, initial inbound '
                 'numbers around the 32-bit wrap, user / password lengths 0..16, 3 privilege levels, 0..9 follow-up requests, '
-                'retries 0..3, silence / error code / short / long / empty reply at each of the 5 handshake steps followed by '
+                'retries 0..3, lost replies of handshake steps with answered retransmissions, silence on every attempt, '
+                'silence / error code / short / long / empty reply at each of the 5 handshake steps followed by '
                 're-establishing on the same objects, re-establishing after close and without close, close twice / first; sessions '
                 'against BMCs with different capability sets in varied order on fresh and on re-used objects (all in one process); '
                 'plus get_max_auth_type on all 256 support bytes and decode of the 5 responses at every length. '
